@@ -779,7 +779,10 @@ class Measure(CalleeMixin, More):
             for rm in (True, False):
                 for get in (None, "outcome"):
                     for ik in info_kinds():
-                        for ok, br in (("None", "numpy"), ("int", None), ("int", "other")):
+                        # (outcome kind, random backend) do not interact with the record: all three spellings for
+                        # the pair record, the default spelling for the other record kinds
+                        for ok, br in ((("None", "numpy"), ("int", None), ("int", "other")) if ik == "pair"
+                                       else (("None", "numpy"),)):
                             out.append(NS(name=f"inplace={ip},remove={rm},get={get},info={ik},outcome={ok},backend_random={br}",
                                           inplace=ip, remove=rm, get=get, ik=ik, ok=ok, br=br))
         return out
@@ -853,8 +856,9 @@ class Measure(CalleeMixin, More):
                                                         sel(f["isR"], k) == sel(m["isR"], k))),
              "moved-down": Implies(And(o.site <= k, k < i - 1), And(sel(f["isL"], k) == sel(m["isL"], k + 1),
                                                                    sel(f["isR"], k) == sel(m["isR"], k + 1))),
-             "above-not-yet-moved": Implies(k >= i, And(sel(f["isL"], k) == sel(m["isL"], k),
-                                                        sel(f["isR"], k) == sel(m["isR"], k)))}
+             "above-not-yet-moved": And(*[Implies(q >= i, And(sel(f["isL"], q) == sel(m["isL"], q),
+                                                              sel(f["isR"], q) == sel(m["isR"], q)))
+                                          for q in (k, k + 1)])}  # (row k + 1 is the one that moves into row k)
         rec = rec_of(v.info)
         d["record"] = And(rec[0] == o.site, rec[1] == o.site) if is_pair(rec) else False
         if not o.inplace:
@@ -941,3 +945,161 @@ class Measure(CalleeMixin, More):
 
 
 MPSContract.methods.update({"measure": f"{MPS}.measure"})
+
+
+# ------------------------------------------------------------------------------------------------
+# sample_configuration, sample: the record of `self` is only READ
+# ------------------------------------------------------------------------------------------------
+
+
+class Sampler(CalleeMixin, More):
+    """no state is returned: X = self.  The configuration is drawn from a right-canonical COPY (canonicalize(0), not in
+    place) and a COPY of the record is moved: the caller's record and the receiver are exactly as before."""
+
+    decorated = False
+    ghost_fields = ("isL", "isR", "absorbed")
+
+    def common_inputs(self, cx, case):
+        mps = new_mps(cx)
+        L = cx.fields(mps)["L"]
+        cx.assume(L >= 1)
+        info = mk_info2(cx, case.ik)
+        for c in record_reqs(cx, mps, info).values():
+            cx.assume(c)
+        cx.ghost[("rec_in", self.target)] = rec_of(info)
+        return mps, info
+
+    def call_reqs(self, cx, a):
+        d = {"chain-not-empty": cx.fields(a.self)["L"] >= 1}
+        d.update(record_reqs(cx, a.self, a.info))
+        return d
+
+    def modifies(self, a, case):
+        return []
+
+    def ensures(self, a, r, cx, case):
+        rec = rec_of(a.info)
+        d = {"receiver-untouched": untouched(cx, a.self),
+             "caller-record-unchanged": same_record(cx, rec, self.rec_in(cx))}
+        if is_pair(rec):
+            d.update(self.record_post(cx, a, a.self))
+        return d
+
+
+@register
+class SampleConfiguration(Sampler):
+    """loop over the sites of the copy: site i is read (local probabilities) when everything to its left has been
+    projected and absorbed into it (ghost `absorbed` = i) and everything to its right is a right isometry"""
+
+    target = f"{MPS}.sample_configuration"
+    floor = 20
+
+    def cases(self):
+        return [NS(name=f"info={ik},backend_random={br}", ik=ik, br=br) for ik in info_kinds2()
+                for br in ("numpy", None, "other")]
+
+    def inputs(self, cx, case):
+        mps, info = self.common_inputs(cx, case)
+        return dict(self=mps, seed=None, backend_random=case.br, info=info)
+
+    def absorbed(self, cx, mps):
+        return cx.fields(mps).setdefault("absorbed", z3.IntVal(0))
+
+    def call(self, cx, name, args, kwargs, node):
+        if name == "__binop__" and args[0] == "BitAnd" and isinstance(args[1], Site):
+            # ki & ki.H : the local norm network of site i is formed -- the local tensors are read here
+            s = args[1]
+            f = cx.fields(s.mps)
+            cx.oblige(f"local-region-holds-the-centre@{node.lineno}", "post",
+                      And(self.absorbed(cx, s.mps) == s.i, 0 <= s.i, s.i < f["L"],
+                          forall_sites(Implies(And(s.i < K, K < f["L"]), sel(f["isR"], K)))), node.lineno)
+            return cx.Opaque("local_norm_tn")
+        if name == ".isel_" and isinstance(args[0], Ref) and args[0].kind == "MPS" and isinstance(args[1], dict) \
+                and len(args[1]) == 1:
+            (ix,) = args[1].keys()
+            ix = self.site_of_index(cx, ix, node)
+            if ix.mps != args[0]:
+                raise Unsupported("isel_ with the index of another network")
+            havoc_site(cx, ix.mps, ix.i)  # projecting the physical index: only this site's tensor changes
+            return None
+        if name == ".contract_tags_" and isinstance(args[0], Ref) and args[0].kind == "MPS":
+            mps, tags = args[0], args[1]
+            if not (isinstance(tags, (list, tuple)) and len(tags) == 2 and all(isinstance(t, SiteTag) and t.mps == mps for t in tags)):
+                raise Unsupported("contract_tags_ on something else than two site tags")
+            i, j = tags[0].i, tags[1].i
+            f = cx.fields(mps)
+            cx.oblige(f"call-pre@{node.lineno}:absorbs-the-projected-block-into-the-next-site", "call-pre",
+                      And(j == i + 1, 0 <= i, j < f["L"], self.absorbed(cx, mps) == i), node.lineno)
+            havoc_site(cx, mps, i)
+            havoc_site(cx, mps, j)
+            f["absorbed"] = j
+            return None
+        return super().call(cx, name, args, kwargs, node)
+
+    def inv(self, v):
+        cx, o = v.cx, v.old
+        f = cx.fields(v.psi)
+        L = f["L"]
+        i = v.i
+        return {"works-on-a-copy": v.psi != o.self, "length": L == cx.pre(o.self)["L"],
+                "i-range": And(0 <= i, i <= L),
+                "left-block-absorbed": self.absorbed(cx, v.psi) == If(i < L, i, L - 1),
+                "right-part-right-isometric": forall_sites(Implies(And(i < K, K < L), sel(f["isR"], K))),
+                "receiver-untouched": untouched(cx, o.self),
+                "caller-record-unchanged": same_record(cx, rec_of(o.info), self.rec_in(cx))}
+
+    @property
+    def loops(self):
+        return {0: Loop("for i in range(psi.L)", self.inv)}
+
+    def fresh_result(self, cx, a, case):
+        return (cx.Opaque("config"), cx.Opaque("omega"))
+
+    def ensures(self, a, r, cx, case):
+        d = super().ensures(a, r, cx, case)
+        d["returns-(config,omega)"] = isinstance(r, tuple) and len(r) == 2
+        return d
+
+
+@register
+class Sample(Sampler):
+    """generator: canonicalize(0) once on a copy with a COPY of the record, then C calls of sample_configuration on that
+    copy threading the copied record"""
+
+    target = f"{MPS}.sample"
+    floor = 15
+
+    def cases(self):
+        return [NS(name=f"info={ik},backend_random={br}", ik=ik, br=br) for ik in info_kinds2()
+                for br in ("numpy", None, "other")]
+
+    def inputs(self, cx, case):
+        mps, info = self.common_inputs(cx, case)
+        C = cx.Int("C")
+        return dict(self=mps, C=C, seed=None, backend_random=case.br, info=info)
+
+    def inv(self, v):
+        cx, o = v.cx, v.old
+        f = cx.fields(v.psi0)
+        rec = rec_of(v.info)
+        d = {"works-on-a-copy": v.psi0 != o.self, "length": f["L"] == cx.pre(o.self)["L"],
+             "receiver-untouched": untouched(cx, o.self),
+             "caller-record-unchanged": same_record(cx, rec_of(o.info), self.rec_in(cx)),
+             "threaded-record-is-a-private-copy": v.info is not o.info}
+        if is_pair(rec):
+            lo, hi = Min(rec[0], rec[1]), Max(rec[0], rec[1])
+            d["threaded-record-sound-for-the-copy"] = And(Sound(cx, (lo, hi), v.psi0), 0 <= lo, hi < f["L"])
+        else:
+            d["threaded-record-is-a-pair"] = False
+        return d
+
+    @property
+    def loops(self):
+        return {0: Loop("for _ in range(C)", self.inv)}
+
+    def fresh_result(self, cx, a, case):
+        n = If(a.C >= 0, a.C, 0)
+        return SymIter(n, lambda t: (cx.Opaque("config"), cx.Opaque("omega")))
+
+
+MPSContract.methods.update({"sample_configuration": f"{MPS}.sample_configuration", "sample": f"{MPS}.sample"})
